@@ -54,7 +54,13 @@ def attempts(tier):
     for raw in (b'*', b'', b'!!!', b'=', b64(b'nonuls'), b64(b'\x00\x00'), b64(b'a\x00b'), b64(b'\x00testuser\x00testpass\x00extra'),
                 b64(b'\x00testuser'), b64(b'testuser\x00\x00testpass'), b64(b'\x00testuser\x00testpass')[:-3], b'A' * 60000,
                 b64(b'\x00' + b'testuser' + b'\x00' + b'testpass') + b' ', b' ' + b64(b'\x00testuser\x00testpass'),
-                b64(b'\xff\xfe\x00\xff\x00\xff')):
+                b64(b'\xff\xfe\x00\xff\x00\xff'),
+                # the right credentials, wrapped in something that is NOT base64 (RFC 4648 / the `base64` rule of RFC 3501):
+                # characters outside the alphabet, inner white space, surplus padding, a leading cancel star
+                b64(b'\x00testuser\x00testpass')[:5] + b'!*~' + b64(b'\x00testuser\x00testpass')[5:],
+                b64(b'\x00testuser\x00testpass')[:8] + b' ' + b64(b'\x00testuser\x00testpass')[8:],
+                b64(b'\x00testuser\x00testpass') + b'===', b'*' + b64(b'\x00testuser\x00testpass'),
+                b64(b'\x00testuser\x00testpass').replace(b'A', b'-A', 1)):
         out.append(('plain-raw', raw))
     for u, p in (('testuser', b'testpass'), ('testuser', b'wrong'), ('nobody', b'x'), ('admin', b'adminpass')):
         out.append(('loginmech', u.encode(), p))
@@ -84,7 +90,7 @@ def expected(att):
         return False, None
     if k == 'plain-raw':
         try:
-            raw = base64.b64decode(att[1], validate=False)
+            raw = base64.b64decode(att[1], validate=True)       # a malformed exchange leaves the connection unauthenticated
         except Exception:   # noqa
             return False, None
         parts = raw.split(b'\x00')
@@ -235,7 +241,7 @@ async def sieve_scenario(config, seq):
             authcid, secret, authzid = plain[2].decode(), plain[3].decode(), plain[1].decode()
         elif plain[0] == 'plain-raw':
             try:
-                parts = base64.b64decode(plain[1], validate=False).split(b'\x00')
+                parts = base64.b64decode(plain[1], validate=True).split(b'\x00')       # malformed base64: refused
                 if len(parts) == 3 and plain[1].strip() != b'*':
                     authzid, authcid, secret = (x.decode() for x in parts)
             except Exception:   # noqa
